@@ -92,9 +92,9 @@ def main():
         'checks': checks,
         'not_applicable': [],
         'notes': 'All 20 properties are claimed through structural clauses only (see level_claimed.text for what is NOT decided per property). Genuine defects found: '
-                 '11 repaired by fix: commits in /repo, 1 recorded in /verif/known_findings.json (C20.5). ./check selftest runs the variant corpus (broken variants must fire, '
+                 '10 repaired by fix: commits in /repo, 1 recorded in /verif/known_findings.json (C20.5). ./check selftest runs the variant corpus (broken variants must fire, '
                  'refactoring twins must stay silent); thorough tier = quick + that sensitivity exploration (hand-written variants and generated twins) on the current tree. '
-                 '/verif/seeded holds 100 independently seeded property-breaking changes (all reported), /verif/twins 96 independent behaviour-preserving refactorings (all silent).',
+                 '/verif/seeded holds 140 independently seeded property-breaking changes (all reported), /verif/twins 144 independent behaviour-preserving refactorings (all silent).',
     }
     json.dump(m, open(os.path.join(HERE, 'MANIFEST.json'), 'w'), indent=1)
     print('wrote MANIFEST.json with %d checks' % len(checks))
